@@ -1,5 +1,5 @@
 (* Correspondence case and checker for C13 (throughput goals and cluster size). *)
-From Refinery Require Export Lib.Base Model.TraceKey Model.Registry.
+From Refinery Require Export Lib.Base Lib.Strs_samp Model.Registry.
 
 (* after each op: instance returned by a creation (numbered by first-seen pointer), goals of the
    instances created since the last clear (by number), and the factory's peer count *)
